@@ -860,7 +860,7 @@ func rsemScenario(c *Ctx, sh *shard, scen int) {
 				}
 			}
 			reads = fmt.Sprintf("(Some {| ro_opened := %s; ro_rows := %s; ro_region := %s |})", coqList(oc), coqList(rc), coqList(gc))
-			c.dist("e2e_reads", fmt.Sprintf("opened=%s region=%s rows=%s", bucket(len(oc), len(files)), bucket(len(gc), len(files)), bucket(len(rc), stored/1+0)))
+			c.dist("e2e_reads", fmt.Sprintf("opened=%s region=%s rows=%s", rsBucket(len(oc), len(files)), rsBucket(len(gc), len(files)), rsBucket(len(rc), stored/1+0)))
 		}
 		term := fmt.Sprintf("CQuery %s %s %s {| q_pre := %s; q_bloom := %s; q_regex := %s |} %s %s", coqTokTab(allTexts, tk.oracle), coqReTab(allTexts, pats),
 			coqList(fcoq), pcoq, coqBQuery(q.Bloom), coqRQuery(q.Regex), coqList(gotc), reads)
@@ -868,7 +868,7 @@ func rsemScenario(c *Ctx, sh *shard, scen int) {
 			"tokenizer": tk.name, "bloom": q.Bloom, "regex": q.Regex, "prefilter": q.Prefilter, "returned_ids": got}
 		sh.add(c, term, desc)
 		nontrivial := (hasB || hasR || hasP) && len(got) > 0 && len(got) < len(rows)
-		c.dist("e2e_result", fmt.Sprintf("returned=%s", bucket(len(got), len(rows))))
+		c.dist("e2e_result", fmt.Sprintf("returned=%s", rsBucket(len(got), len(rows))))
 		c.count([]string{"C01", "C02", "C18"}, term, nontrivial, desc)
 		if isMem {
 			c.count([]string{"C24"}, "c24:"+term, hasB || hasR || hasP, desc)
@@ -877,7 +877,7 @@ func rsemScenario(c *Ctx, sh *shard, scen int) {
 	_ = strings.Join
 }
 
-func bucket(n, total int) string {
+func rsBucket(n, total int) string {
 	switch {
 	case n == 0:
 		return "none"
